@@ -390,3 +390,17 @@ package bitmap
 //@   loop 2
 //@     invariant a >> 6 < wordI && wordI <= l && l == int32(len(words)) && 0 <= a && int(a) < 64 * len(words)
 //@     invariant forall k int :: int(a >> 6) < k && k < int(wordI) ==> words[k] == 0
+
+// ---- C12: OfMany (BOUNDED: trusted contract, checked on concrete executions of the real function) ----
+// the positions of sub-bitmap i are shifted by the running sum of the preceding sizes
+
+//@ func OfMany returns (r)
+//@   trusted not brought under proof (nested range loops over [][]int32 with running sums feeding Of's ascending precondition): bounded check only
+//@   requires len(subs) == len(sizes) && len(subs) < 16
+//@   requires forall i int :: 0 <= i && i < len(sizes) ==> 0 <= sizes[i] && sizes[i] < 1<<16
+//@   requires forall i int, k int :: 0 <= i && i < len(subs) && 0 <= k && k < len(subs[i]) ==> 0 <= subs[i][k] && subs[i][k] < sizes[i] && (k + 1 < len(subs[i]) ==> subs[i][k] < subs[i][k+1])
+//@   ensures len(r) == int((sumSz(sizes, len(sizes)) + 63) >> 6)
+//@   ensures forall q int32 :: 0 <= q && q < sumSz(sizes, len(sizes)) ==> (bitAt(r, q) == 1 <==> (exists i int, k int :: 0 <= i && i < len(subs) && 0 <= k && k < len(subs[i]) && sumSz(sizes, i) + subs[i][k] == q))
+//@   witness-gen sizes = func() []int32 { n := r.Intn(5); o := make([]int32, n); for i := range o { o[i] = int32(r.Intn(40)) }; return o }()
+//@   witness-gen subs = func() [][]int32 { o := make([][]int32, len(sizes)); for i := range o { for p := int32(0); p < sizes[i]; p++ { if r.Intn(6) == 0 && len(o[i]) < 6 { o[i] = append(o[i], p) } } }; return o }()
+//@   assigns nothing
